@@ -45,6 +45,10 @@ func init() {
 }
 
 func runC06(c *Case) {
+	if c.Index%5 == 4 {
+		runC06Storm(c)
+		return
+	}
 	var rr *rpcRun
 	panicText := c.Bubble(func() {
 		rr = runRPCScript(c, c06Weights, false)
